@@ -12,6 +12,7 @@ for p in tools/gen_*.py; do
     tools/gen_keys.py) python3 "$p" "$REPO" lean/IndicatifModel/Generated/Keys.lean ;;
     tools/gen_atomics.py) python3 "$p" "$REPO" lean/IndicatifModel/Generated/Atomics.lean ;;
     tools/gen_unwraps.py) python3 "$p" "$REPO" lean/IndicatifModel/Generated/Unwraps.lean ;;
+    tools/gen_template.py) python3 "$p" "$REPO" lean/IndicatifModel/Generated/TemplateArms.lean ;;
   esac
 done
 ( cd lean
